@@ -25,6 +25,7 @@ import math
 from fractions import Fraction as Fr
 
 LEVEL = "proof"
+EXTRA_PROPS = ["QuantemModel.Props.C17Ext"]   # growth 6: closed boundary of Itoh, orientation symmetry, wrap_around flipped on one grid
 MANIFEST_ENTRY = {
     "category": "proof",
     "text": "Lean 4 theorems over an executable model of the reliability-sorting unwrapper (edge construction for bounded/periodic grids with masks, union-find with offsets exactly as UnionFindPhase: no path compression, union by rank, the code's sign conventions; final offsets; mean removal; the bright-field embedding) and of the PUBLIC entry points with their argument handling (dispatch on method, phi.shape unpacking, the mask entering through broadcasting and flat indexing, value lengths and the lazily validated method of unwrap_bf_overlap_phase_torch) including the exception type of every rejected call. The merge ORDER is an input of the model, so every theorem holds for every order the float reliability sort could produce. Proved for all sizes, masks, edge multigraphs (self-loops/duplicates included) and orders: termination of find (rank strictly increases to the root), the offset-consistency invariant (every stored offset is n(pixel)-n(parent) for any integer field the increments are differences of), Itoh => increments are wrap-count differences (over the reals, threshold pi), hence out - truth is constant on every connected component of the masked edge graph; out - input is in 2*pi*Z plus one constant for every input; smooth unwrapped input is returned up to one constant; same-tree edges are no-ops; the grid-level body of unwrap_bf_overlap_phase_torch (mask test, max-min>pi test, one or two passes) returns the truth up to a constant per connected overlap region in every branch; the model's edge graph is the 4-neighbour graph (bounded and periodic; the periodic edge list is characterised as a multiset for every HxW incl. H or W in {1,2}: self-loops / double edges exactly there); the input is taken raw: recovery holds for any representative of the truth whose neighbouring wrap counts are at most one apart (any 2*pi window such as [0,2pi), partially or fully unwrapped input), with a counterexample two cycles apart; the result is independent of the reliability (any comparison function used for the sort, any wrap function inside _pixel_reliability); the whole unwrap_bf_overlap_phase_torch incl. scatter phase_grid[bf_mask]=... and gather is correct entry by entry, for every number of images. Growth 5, over HISTORIES including calls that raise: a well-formed call (2-D phase, no mask or a mask of the grid's shape) never raises, never diverges and is correct (call_valid_correct: total correctness of the public entry point); in ANY history of calls on the module, valid and rejected ones in any order, every well-formed call returns what it returns alone, i.e. the truth up to a constant per region (session_exception_safe, session_pointwise); the rejected calls by exception type (rejected_calls: unknown method / non-2-D phase ValueError, Poisson on a bounded grid NotImplementedError, non-broadcastable mask RuntimeError, a mask that broadcasts but has fewer elements than the grid IndexError, never silently broadcast); after ANY history of union calls on one UnionFindPhase object, calls with an index past the end included, exactly those raise, they leave the object untouched (state = state after the accepted calls alone), the forest/termination/offset invariants hold (uf_history_invariant); unwrap_bf_overlap_phase_torch with right-length values is the modelled function, an unknown method either raises or (no pass needed) returns exactly what the valid method returns, wrong-length values are a RuntimeError (bf_args_spec). _pixel_reliability (wrapped second differences, periodic rolls) and the sort are modelled exactly and the real edge ORDER is checked to be ascending in the model's exact rational reliabilities. The model is tied to the code on every run by exact differential streams (edge multisets, union-find final offsets on the real edge order, end-to-end fields, bf-overlap embedding, call histories with rejected and fault-injected calls run before anything else has called the module, union-find and bf histories) and the property predicate is evaluated on the real outputs of every valid call, inside and outside histories, with an independent connected-component / wrap-count oracle.",
@@ -1033,12 +1034,14 @@ def gen_medium_case(rng):
             "dtype": rng.choice(["float32", "float64"]), "qn": qn, "kind": kind, "mkind": mkind, "outside": "smooth"}
 
 
-def gen_border_case(rng):
+def gen_border_case(rng, shape=None, mkind=None):
     """wrap_around=False on a NON-periodic smooth field whose wrapped version is continuous across the border: a ramp
     climbing whole turns across the width (and/or height) plus a bump that is flat near the edges.  Periodic seam
     pairs would look perfectly reliable here but join pixels that are whole turns apart."""
     import numpy as np
     H, W = rng.randint(6, 22), rng.randint(6, 22)
+    if shape is not None:
+        H, W = shape
     tx = rng.randint(1, max(1, min(3, (W - 1) // 3)))
     ty = rng.choice([0, 0, 1, min(2, max(1, (H - 1) // 3))])
     if rng.chance(0.3):
@@ -1052,7 +1055,8 @@ def gen_border_case(rng):
     env = np.sin(math.pi * (xx + 0.5) / W) ** 2 * np.sin(math.pi * (yy + 0.5) / H) ** 2
     bump = env * gen_float_field(rng, H, W, rng.choice(["gauss", "bandlimited", "quadratic"]))
     bump = bump / max(1e-9, float(np.abs(bump).max()))
-    mkind = rng.weighted([("none", 4), ("border", 2), ("annulus", 1), ("blobs", 1)])
+    mk0 = rng.weighted([("none", 4), ("border", 2), ("annulus", 1), ("blobs", 1)])
+    mkind = mkind or mk0
     mask = gen_mask(rng, H, W, mkind)
     pairs = used_pairs(H, W, mask, False)
     amp = rng.uniform(0.5, 4.0)
@@ -1075,15 +1079,19 @@ def gen_border_case(rng):
             "dtype": rng.choice(["float32", "float64"]), "qn": qn, "kind": "border-continuous", "mkind": mkind, "outside": "smooth"}
 
 
-def gen_seam_case(rng):
+def gen_seam_case(rng, L=None, R=None, transposed=None, sign=None):
     """periodic grid whose mask component is held together ONLY by the seam of exactly one axis: a band that spans
     the periodic axis completely, cut once across; the ramp runs through the seam.  Non-square sizes, the other
-    axis of length 1, 2 or more (H or W in {1, 2}: self-loops / double edges)."""
-    L = rng.randint(3, 22)                       # length of the axis whose seam is used
-    R = rng.weighted([(1, 2), (2, 3), (rng.randint(3, 12), 5)])
+    axis of length 1, 2 or more (H or W in {1, 2}: self-loops / double edges).  (L, R, transposed, sign given: the
+    fixed blocks of growth 6 — the random draws below are then made and discarded, the stream of `rng` stays as it was)"""
+    L0 = rng.randint(3, 22)                      # length of the axis whose seam is used
+    R0 = rng.weighted([(1, 2), (2, 3), (rng.randint(3, 12), 5)])
+    L = L0 if L is None else L
+    R = R0 if R is None else R
     if R == L:
         R += 1
-    transposed = rng.chance(0.5)                 # False: seam of axis 1 (columns wrap), True: seam of axis 0
+    t0 = rng.chance(0.5)                         # False: seam of axis 1 (columns wrap), True: seam of axis 0
+    transposed = t0 if transposed is None else transposed
     if R <= 2:
         r0, r1 = 0, R - 1
     else:                                        # the band must not span the other axis (its seam is not to be used)
@@ -1098,7 +1106,8 @@ def gen_seam_case(rng):
     c0 = rng.randint(0, L - 1)
     cut = {(c0 + j) % L for j in range(k)}
     start = (c0 + k) % L
-    sign = 1 if rng.chance(0.5) else -1
+    s0 = 1 if rng.chance(0.5) else -1
+    sign = s0 if sign is None else sign
     P = [0]
     for _ in range(L - 1):
         P.append(P[-1] + sign * rng.randint(int(0.45 * DEN), int(0.96 * DEN)))
@@ -2011,7 +2020,141 @@ def gen_bf_history(rng):
 
 # ---------------------------------------------------------------------------------------
 
-EVAL = {"unwrap": eval_unwrap_case, "edges": eval_edges_case, "uf": eval_uf_case, "bf": eval_bf_case,
+# ---------------------------------------------------------------------------------------
+# growth 6: FIXED blocks (independent of VERIF_SEED)
+
+G6_SEED = 6_017_000
+G6_SHAPES = [(5, 9), (9, 5), (1, 12), (12, 1), (7, 8), (8, 7), (2, 11), (11, 2)]
+G6_FIELDS = ["axis1-down", "axis0-down", "both-down", "axis1-up-axis0-down", "bump-down", "sin-down", "cos-periodic"]
+
+
+def g6_field(H, W, name):
+    """float field in units of pi before scaling; the DESCENDING variants fall through the branch cut along increasing
+    row / column index, and every variant lies below zero somewhere (negative wrap counts)"""
+    import numpy as np
+    yy, xx = np.mgrid[:H, :W].astype(float)
+    if name == "axis1-down":            # ramp along the SECOND axis only
+        return -xx
+    if name == "axis0-down":            # ramp along the first axis only
+        return -yy
+    if name == "both-down":
+        return -xx - 0.6 * yy
+    if name == "axis1-up-axis0-down":
+        return 0.8 * xx - yy
+    if name == "bump-down":             # a pit: falls towards the centre, climbs out again
+        s = max(1.5, min(H, W) / 3.0)
+        return -8.0 * np.exp(-((xx - (W - 1) / 2.0) ** 2 + (yy - (H - 1) / 2.0) ** 2) / (2 * s * s)) - 0.15 * xx
+    if name == "sin-down":              # periodic along both axes, odd (descends through zero at the origin)
+        return -3.0 * np.sin(2 * math.pi * xx / W) - 2.0 * np.sin(2 * math.pi * yy / H)
+    if name == "cos-periodic":
+        return 3.0 * np.cos(2 * math.pi * (xx / W + yy / H)) - 2.5 * np.cos(2 * math.pi * yy / H)
+    raise ValueError(name)
+
+
+def g6_small_cases():
+    """shapes with H != W both ways x fields (descending ramps along one axis only / both, pit, periodic sin / cos)
+    x wrap_around (periodic fields: both settings; others: bounded) — pistons chosen so that the truth is negative"""
+    from qv.prng import Rng
+    out = []
+    k = 0
+    for (H, W) in G6_SHAPES:
+        for name in G6_FIELDS:
+            periodic = name in ("sin-down", "cos-periodic")
+            for wrap in ([True, False] if periodic else [False]):
+                k += 1
+                rng = Rng(G6_SEED + k)
+                mkind = ["none", "none", "rect", "border"][k % 4] if H > 2 and W > 2 else "none"
+                mask = gen_mask(rng, H, W, mkind)
+                pairs = used_pairs(H, W, mask, wrap)
+                qn = quantise_itoh(rng, g6_field(H, W, name), pairs, [0.93, 0.7, 0.96][k % 3])
+                off = [-3 * DEN - 517, -DEN + 3, -7 * DEN, 5][k % 4]
+                qn = [v + off for v in qn]
+                out.append({"stream": "unwrap", "H": H, "W": W, "wrap": wrap, "mask": mask,
+                            "mode": ["wrapped", "wrapped", "zero2pi", "unwrapped"][k % 4], "dtype": ["float64", "float32"][k % 2],
+                            "qn": qn, "kind": "g6-" + name, "mkind": mkind, "outside": "smooth"})
+    return out
+
+
+def g6_big_case(which):
+    """more than 2**14 pixels: 130 x 130 without a mask (bounded, steep descending ramp along the second axis + pit),
+    120 x 150 with an annulus mask (periodic call; ramp descending along the first axis + bump); compact description"""
+    return {"stream": "g6big", "which": which}
+
+
+def expand_g6_big(c):
+    import numpy as np
+    from qv.prng import Rng
+    which = c["which"]
+    rng = Rng(G6_SEED + 500 + which)
+    H, W, wrap, masked, dtype = [(130, 130, False, False, "float64"), (120, 150, True, True, "float32"),
+                                 (150, 120, False, True, "float64"), (130, 130, True, False, "float32")][which % 4]
+    yy, xx = np.mgrid[:H, :W].astype(float)
+    if wrap and not masked:
+        f = -6.0 * np.sin(2 * math.pi * xx / W) + 4.0 * np.cos(2 * math.pi * (yy / H - xx / W))
+    else:
+        pit = -30.0 * np.exp(-((xx - 0.4 * W) ** 2 + (yy - 0.55 * H) ** 2) / (2 * (0.2 * min(H, W)) ** 2))
+        f = (-0.9 * xx + 0.3 * yy + pit) if which % 2 == 0 else (-0.85 * yy + 0.1 * xx - pit)
+    mask = None
+    if masked:
+        rr = np.hypot(yy - 0.5 * H, xx - 0.48 * W)
+        m = (rr <= 0.47 * min(H, W)) & (rr >= 0.12 * min(H, W))
+        mask = [int(v) for v in m.flatten()]
+    pairs = used_pairs(H, W, mask, wrap)
+    qn = quantise_itoh(rng, f, pairs, 0.95)
+    qn = [v - 5 * DEN - 333 for v in qn]
+    return {"stream": "unwrap", "H": H, "W": W, "wrap": wrap, "mask": mask, "mode": "wrapped", "dtype": dtype, "qn": qn,
+            "kind": "g6-big", "mkind": "annulus" if masked else "none", "outside": "smooth"}
+
+
+def eval_g6_big_case(ctx, drv, c):
+    full = expand_g6_big(c)
+    ctx.dist[f"g6:big:{full['H']}x{full['W']}:wrap={full['wrap']}:mask={full['mkind']}"] += 1
+    eval_unwrap_case(ctx, drv, full, report_case=c, stream="g6-big")
+
+
+G6_FLIP_SHAPES = [(14, 17), (17, 14), (15, 3), (3, 16), (16, 15), (2, 14), (14, 1), (15, 18)]
+
+
+def g6_flip_histories():
+    """two (and more) valid calls in ONE process on the SAME (H, W) that differ in wrap_around: periodic first on half of
+    the grids, bounded first on the other half.  The periodic calls use a mask region that is connected only across the
+    seam (of axis 1 / axis 0 alternately, ramp descending / ascending through it), the bounded calls a non-periodic field
+    that is continuous across the border (periodic pairs would join pixels whole turns apart).  Grid shapes of their own
+    (not used by any other stream before), so the first call of each history is the first call of the process on it."""
+    from qv.prng import Rng
+    out = []
+    for k, (H, W) in enumerate(G6_FLIP_SHAPES):
+        rng = Rng(G6_SEED + 900 + k)
+        transposed = bool(k % 2) if min(H, W) > 2 else (H > W)     # seam of axis 0 when transposed
+        L, R = (H, W) if transposed else (W, H)
+        per = lambda j: gen_seam_case(rng.fork(j), L=L, R=R, transposed=transposed, sign=(-1 if (k + j) % 2 == 0 else 1))  # noqa
+        if min(H, W) >= 6:
+            bnd = lambda j: gen_border_case(rng.fork(100 + j), shape=(H, W), mkind=("none" if j % 2 == 0 else "border"))  # noqa
+        else:                                                       # thin grids: a steep bounded ramp, no mask
+            bnd = lambda j: g6_thin_bounded(rng.fork(100 + j), H, W)  # noqa
+        periodic_first = k % 2 == 0 if k < 4 else k % 2 == 1
+        steps = []
+        for j in range(4):
+            c = per(j) if (j % 2 == 0) == periodic_first else bnd(j)
+            assert (c["H"], c["W"]) == (H, W), (c["H"], c["W"], H, W)
+            steps.append({"op": "valid", "case": c})
+        out.append({"stream": "history", "H": H, "W": W, "hidx": 100_000 + k, "steps": steps})
+    return out
+
+
+def g6_thin_bounded(rng, H, W):
+    import numpy as np
+    yy, xx = np.mgrid[:H, :W].astype(float)
+    sx = -1 if rng.chance(0.5) else 1
+    f = sx * (xx * (2.0 if W > 2 else 0.3) + yy * (2.0 if H > 2 else 0.3))
+    pairs = used_pairs(H, W, None, False)
+    qn = quantise_itoh(rng, f, pairs, 0.9)
+    off = rng.randint(-2 * DEN, 2 * DEN)
+    return {"stream": "unwrap", "H": H, "W": W, "wrap": False, "mask": None, "mode": "wrapped", "dtype": rng.choice(["float32", "float64"]),
+            "qn": [v + off for v in qn], "kind": "g6-thin-ramp", "mkind": "none", "outside": "smooth"}
+
+
+EVAL = {"g6big": eval_g6_big_case, "unwrap": eval_unwrap_case, "edges": eval_edges_case, "uf": eval_uf_case, "bf": eval_bf_case,
         "order": eval_order_case, "bf_stack": eval_bf_stack_case,
         "long": eval_long_case, "history": eval_history_case, "uf_hist": eval_uf_hist_case, "bf_history": eval_bf_history_case}
 
@@ -2026,6 +2169,14 @@ def run(ctx):
         # that a rejected call really is the first call of the process on its grid (module-level state, if any, starts empty)
         for h in range(ctx.n(96, 300)):
             eval_history_case(ctx, drv, gen_history(ctx.rng.fork(12_000_000 + h), h))
+        # growth 6, fixed: same (H, W), wrap_around flipped between valid calls (periodic first / bounded first)
+        import time as _time
+        t0 = _time.time()
+        for hist in g6_flip_histories():
+            ctx.dist["g6:flip-history:" + ("periodic-first" if hist["steps"][0]["case"]["wrap"] else "bounded-first")] += 1
+            eval_history_case(ctx, drv, hist)
+        g6_secs = {"flip-histories": round(_time.time() - t0, 1)}
+        ctx.extra["g6_block_seconds"] = g6_secs
         for h in range(ctx.n(30, 120)):
             eval_bf_history_case(ctx, drv, gen_bf_history(ctx.rng.fork(13_000_000 + h)))
         for h in range(ctx.n(150, 1200)):
@@ -2054,6 +2205,16 @@ def run(ctx):
             eval_long_case(ctx, drv, gen_long_case(ctx.rng.fork(6_000_000 + s), variants[s % 4]))
         if ctx.thorough() and not ctx.search_mode:
             eval_long_case(ctx, drv, gen_long_case(ctx.rng.fork(6_900_000), "bounded", huge=True))
+        # growth 6, fixed: descending fields / one-axis ramps on H != W grids; grids with more than 2**14 pixels
+        t0 = _time.time()
+        for c in g6_small_cases():
+            ctx.dist[f"g6:small:{c['kind']}"] += 1
+            eval_unwrap_case(ctx, drv, c, stream="g6-small")
+        g6_secs["small"] = round(_time.time() - t0, 1)
+        t0 = _time.time()
+        for which in range(2 if not ctx.thorough() else 4):
+            eval_g6_big_case(ctx, drv, g6_big_case(which))
+        g6_secs["big"] = round(_time.time() - t0, 1)
         # the seam of exactly one axis; medium grids; the edge order; several images through one bf_mask
         for s in range(ctx.n(80, 1500)):
             eval_unwrap_case(ctx, drv, gen_seam_case(ctx.rng.fork(7_000_000 + s)))
